@@ -522,6 +522,7 @@ class HTTPWARCRecorderSession(BaseWARCRecorderSession):
         self._request = None
         self._request_record = None
         self._response_record = None
+        self._response_payload_offset = None
         self._response_temp_file = self._new_temp_file(hint='warcsesrsp')
 
     def close(self):
@@ -575,11 +576,15 @@ class HTTPWARCRecorderSession(BaseWARCRecorderSession):
             WARCRecord.WARC_RECORD_ID]
         record.block_file = self._response_temp_file
 
+        # Everything received so far is the header block as formatted by
+        # the server; the payload starts right after it.
+        self._response_payload_offset = self._response_temp_file.tell()
+
     def response_data(self, data: bytes):
         self._response_temp_file.write(data)
 
     def end_response(self, response: HTTPResponse):
-        payload_offset = len(response.to_bytes())
+        payload_offset = self._response_payload_offset
 
         self._response_record.block_file.seek(0)
         self._recorder.set_length_and_maybe_checksums(
